@@ -257,16 +257,25 @@ type zzChain struct {
 	zzCtx
 	next netty.InboundHandler
 	sink *zzCtx
+	fail bool
 }
 
-func (c *zzChain) HandleRead(message netty.Message) { c.next.HandleRead(c.sink, message) }
+type zzFailingSink struct{ zzCtx }
+
+func (c *zzChain) HandleRead(message netty.Message) {
+	if c.fail {
+		panic("zz: receiver failure")
+	}
+	c.next.HandleRead(c.sink, message)
+}
 
 // ZZ_C16_TextRetained: two messages through the same codec chain (frame codec underneath, text codec on top);
 // the receiver keeps both strings and looks at them after the second delivery: each is still the byte sequence
 // of its own message. (Go strings are immutable: a received string that changes when later traffic arrives is
 // not "the identical string".)
 //
-//	under: 0 packet codec (one reused read buffer), 1 length-field codec, 2 delimiter codec, 3 varint codec
+//	under: 0 packet codec (one reused read buffer), 1 length-field codec, 2 delimiter codec, 3 varint codec,
+//	       4 packet codec after a delivery that failed
 func ZZ_C16_TextRetained(under int) {
 	n1 := vrt.Choose(3) + 1
 	n2 := vrt.Choose(3) + 1
@@ -275,7 +284,7 @@ func ZZ_C16_TextRetained(under int) {
 	txt := TextCodec()
 	var fc netty.CodecHandler
 	switch under {
-	case 0:
+	case 0, 4:
 		fc = frame.PacketCodec(8)
 	case 1:
 		fc = frame.LengthFieldCodec(binary.BigEndian, 4096, 0, 2, 0, 2)
@@ -292,7 +301,14 @@ func ZZ_C16_TextRetained(under int) {
 	}
 	sink := &zzCtx{}
 	chain := &zzChain{next: txt, sink: sink}
-	if under == 0 {
+	if under == 4 {
+		// the receiver fails on a first message (the exception is handled, the channel stays open): the strings that
+		// follow are still exactly what was sent
+		bad := &zzFailingSink{}
+		pv := vrt.Panics(func() { fc.HandleRead(&zzChain{next: txt, sink: &bad.zzCtx, fail: true}, bytes.NewReader([]byte("boom"))) })
+		vrt.Assert(pv != nil, "c16-retained-first-delivery-fails")
+	}
+	if under == 0 || under == 4 {
 		// one transport read per packet
 		fc.HandleRead(chain, bytes.NewReader(append([]byte(nil), a...)))
 		fc.HandleRead(chain, bytes.NewReader(append([]byte(nil), b...)))
